@@ -255,7 +255,7 @@ static bool isAggrAlgoValid(KSI_uint64_t val) {
 
 static bool isAggrPeriodValid(KSI_uint64_t val) {
 	/* Values under 0.1 and over 20 seconds are discarded. */
-	return (val > KSI_HA_CONF_MIN_PERIOD_MS && val <= KSI_HA_CONF_MAX_PERIOD_MS);
+	return (val >= KSI_HA_CONF_MIN_PERIOD_MS && val <= KSI_HA_CONF_MAX_PERIOD_MS);
 }
 
 static bool isMaxRequestsValid(KSI_uint64_t val) {
